@@ -238,6 +238,9 @@ def run(ctx, nscen=None, nbus=None):
             if c.get('anomalies') or c['res'] >= len(BRES):
                 res.violations.append(dict(signature='C15/bus/anomaly', what=(c.get('anomalies') or ['unclassified'])[0], case=describe_bus(c, tabs)))
                 continue
+            if c.get('reread', -1) >= 0 and not c.get('reread_same', True):
+                res.violations.append(dict(signature='C15/bus/ownership', what='uuid / metadata of a published message changed after it was handed to the publisher', case=describe_bus(c, tabs)))
+                continue
             if any(bevent_term(e) is None for e in c['trace']):
                 res.violations.append(dict(signature='C15/bus/publish-batch', what='Publish called with a number of messages other than one', case=describe_bus(c, tabs)))
                 continue
@@ -271,12 +274,19 @@ def run(ctx, nscen=None, nbus=None):
                        + 'Definition buscases : list bus_case := %s.\n' % C.coq_list([bus_term(c) for c in busgood])
                        + 'Definition mtraces : list (option (list (mevent val))) := %s.\n' % C.coq_list([mtrace_term(d) for d in good])
                        + 'Definition bmtraces : list (option (list (mevent val))) := %s.\n' % C.coq_list([mtrace_term(c) for c in busgood])
+                       + 'Definition sents : list (option val) := %s.\n' % C.coq_list(['(Some %s)' % val(*d['sent']) if d.get('sent') else 'None' for d in good])
+                       + 'Definition rereads : list (option N) := %s.\n' % C.coq_list(['(Some %s)' % N(c['reread']) if c.get('reread', -1) >= 0 else 'None' for c in busgood])
                        + 'Definition regscases : list regs_case := %s.\n' % C.coq_list([regs_term(c) for c in regsgood])
                        + 'Definition regcases : list reg_case := %s.\n' % C.coq_list([reg_term(c) for c in reggood])
                        + 'Definition tabs : list codec_tab := %s.\n' % C.coq_list(['tab%d' % i for i in used]),
                        [('R_mis', 'c15_mismatches cases'), ('R_vio', 'c15_violations cases'),
                         ('B_mis', 'bus_mismatches buscases'), ('B_vio', 'bus_violations buscases'), ('T_rt', 'c15_tab_failures tabs'), ('G_mis', 'reg_mismatches regcases'), ('S_mis', 'regs_mismatches regscases'), ('S_vio', 'regs_violations regscases'),
-                        ('M_mis', 'mc_mismatches cases mtraces'), ('M_vio', 'mc_violations cases mtraces'), ('BM_mis', 'bmc_mismatches buscases bmtraces'), ('BM_vio', 'bmc_violations buscases bmtraces')])
+                        ('M_mis', 'mc_mismatches cases mtraces'), ('M_vio', 'mc_violations cases mtraces'), ('BM_mis', 'bmc_mismatches buscases bmtraces'), ('BM_vio', 'bmc_violations buscases bmtraces'),
+                        ('O_vio', 'own_violations buscases rereads'), ('E_vio', 'sent_violations cases sents')])
+        for i in r['O_vio']:
+            res.violations.append(dict(signature='C15/bus/ownership', what='the payload of a published message, re-read after the later calls of the same bus, is not what its own call prescribed (value encoding / last callback edit): a later Send/Publish affected an earlier message', case=dict(describe_bus(busgood[i], tabs), reread_payload=sv(busgood[i]['reread']) if busgood[i]['reread'] >= 0 else None)))
+        for i in r['E_vio']:
+            res.violations.append(dict(signature=sig_of(good[i]) + '/sent-value', what='a message that came out of a real bus and is consumed after the later sends no longer carries the name and encoding of the value sent', case=describe(good[i], tabs)))
         for i in r['M_vio']:
             res.violations.append(dict(signature=sig_of(good[i]) + '/marshaler-calls', what='marshaler call discipline violated (NameFromMessage once and first / Unmarshal only on a name match into a fresh object / Handle on the decoded object / nothing after a failed Unmarshal)', case=dict(describe(good[i], tabs), marshaler_calls=good[i].get('mtrace'))))
         for i in r['M_mis']:
